@@ -33,6 +33,10 @@ func main() {
 	var ranges, writes, ambient, globals []site
 	mut := mutators(pkgs)
 	tables := map[string][][2]string{} // table -> (key, size) for maps of struct literals with a Size field
+	var optionRows []optionRow            // `var options` of model.go: option name -> allowed values ([] = any)
+	var aliasRows [][2]string             // the switch of getBasicType: spelling -> canonical name
+	aliasSubject := ""                    // ... and what it switches on
+	var configRows [][2]string            // the defaults literal of NewConfiguration: field -> value
 	for _, p := range pkgs {
 		if len(p.Errors) > 0 {
 			fmt.Fprintln(os.Stderr, p.Errors)
@@ -48,6 +52,18 @@ func main() {
 			ast.Inspect(f, func(n ast.Node) bool {
 				switch x := n.(type) {
 				case *ast.FuncDecl:
+					if x.Name.Name == "getBasicType" && x.Body != nil {
+						aliasRows = append(aliasRows, aliasTable(x, p.TypesInfo)...)
+						ast.Inspect(x.Body, func(n ast.Node) bool {
+							if sw, ok := n.(*ast.SwitchStmt); ok && sw.Tag != nil && aliasSubject == "" {
+								aliasSubject = types.ExprString(sw.Tag)
+							}
+							return true
+						})
+					}
+					if x.Name.Name == "NewConfiguration" && x.Body != nil {
+						configRows = append(configRows, configDefaults(x, p.TypesInfo)...)
+					}
 					curFn = x.Name.Name
 					if x.Recv != nil && len(x.Recv.List) > 0 {
 						curFn = types.ExprString(x.Recv.List[0].Type) + "." + curFn
@@ -100,6 +116,9 @@ func main() {
 							if cl, ok := x.Values[k].(*ast.CompositeLit); ok && strings.HasSuffix(name.Name, "BasicTypeMap") {
 								tables[name.Name] = sizeTable(cl, p.TypesInfo)
 							}
+							if cl, ok := x.Values[k].(*ast.CompositeLit); ok && name.Name == "options" && strings.HasSuffix(fname, "/model/model.go") {
+								optionRows = append(optionRows, optionsTable(cl, p.TypesInfo)...)
+							}
 						}
 					}
 				}
@@ -150,6 +169,32 @@ func main() {
 		}
 		b.WriteString("]\n\n")
 	}
+	sort.Slice(optionRows, func(i, j int) bool { return optionRows[i].name < optionRows[j].name })
+	b.WriteString("def optionsTable : List (String × List String) := [")
+	for i, r := range optionRows {
+		if i > 0 {
+			b.WriteString(", ")
+		}
+		vs := []string{}
+		for _, v := range r.values {
+			vs = append(vs, leanStr(v))
+		}
+		b.WriteString("(" + leanStr(r.name) + ", [" + strings.Join(vs, ", ") + "])")
+	}
+	b.WriteString("]\n\n")
+	pairs := func(name string, rows [][2]string) {
+		b.WriteString("def " + name + " : List (String × String) := [")
+		for i, r := range rows {
+			if i > 0 {
+				b.WriteString(", ")
+			}
+			b.WriteString("(" + leanStr(r[0]) + ", " + leanStr(r[1]) + ")")
+		}
+		b.WriteString("]\n\n")
+	}
+	pairs("aliasTable", aliasRows)
+	b.WriteString("def aliasSubject : String := " + leanStr(aliasSubject) + "\n\n")
+	pairs("configDefaults", configRows)
 	b.WriteString("end FinProtoc.Generated\n")
 	if err := os.WriteFile(out, []byte(b.String()), 0644); err != nil {
 		fmt.Fprintln(os.Stderr, err)
@@ -502,4 +547,143 @@ func globalCall(c *ast.CallExpr, info *types.Info, mut map[string]string) string
 		}
 	}
 	return ""
+}
+
+
+// ---- tables of the front end (C08, C12): regenerated so that the visitor model's copies are checked against the source ----
+
+type optionRow struct {
+	name   string
+	values []string
+}
+
+// leanStr: a Lean string literal (Go's %q escapes \x00 as \x00, which Lean reads the same way; other escapes used here are shared)
+func leanStr(s string) string {
+	var b strings.Builder
+	b.WriteByte('"')
+	for _, r := range s {
+		switch {
+		case r == '"':
+			b.WriteString("\\\"")
+		case r == '\\':
+			b.WriteString("\\\\")
+		case r < 0x20 || r == 0x7f:
+			b.WriteString(fmt.Sprintf("\\x%02x", r))
+		default:
+			b.WriteRune(r)
+		}
+	}
+	b.WriteByte('"')
+	return b.String()
+}
+
+func constString(e ast.Expr, info *types.Info) (string, bool) {
+	if tv, ok := info.Types[e]; ok && tv.Value != nil && tv.Value.Kind() == constant.String {
+		return constant.StringVal(tv.Value), true
+	}
+	return "", false
+}
+
+func optionsTable(cl *ast.CompositeLit, info *types.Info) []optionRow {
+	var rows []optionRow
+	for _, e := range cl.Elts {
+		kv, ok := e.(*ast.KeyValueExpr)
+		if !ok {
+			continue
+		}
+		name, ok := constString(kv.Key, info)
+		if !ok {
+			name = "?" + types.ExprString(kv.Key)
+		}
+		row := optionRow{name: name}
+		if vl, ok := kv.Value.(*ast.CompositeLit); ok {
+			for _, ve := range vl.Elts {
+				if v, ok := constString(ve, info); ok {
+					row.values = append(row.values, v)
+				} else {
+					row.values = append(row.values, "?"+types.ExprString(ve))
+				}
+			}
+		} else {
+			row.values = []string{"?" + types.ExprString(kv.Value)}
+		}
+		rows = append(rows, row)
+	}
+	return rows
+}
+
+// aliasTable: every `case "a", "b": return "c"` of getBasicType, in source order
+func aliasTable(fn *ast.FuncDecl, info *types.Info) [][2]string {
+	var rows [][2]string
+	ast.Inspect(fn.Body, func(n ast.Node) bool {
+		cc, ok := n.(*ast.CaseClause)
+		if !ok || cc.List == nil {
+			return true
+		}
+		result := "?"
+		for _, st := range cc.Body {
+			if r, ok := st.(*ast.ReturnStmt); ok && len(r.Results) == 1 {
+				if v, ok := constString(r.Results[0], info); ok {
+					result = v
+				} else {
+					result = "?" + types.ExprString(r.Results[0])
+				}
+			}
+		}
+		for _, e := range cc.List {
+			if v, ok := constString(e, info); ok {
+				rows = append(rows, [2]string{v, result})
+			} else {
+				rows = append(rows, [2]string{"?" + types.ExprString(e), result})
+			}
+		}
+		return true
+	})
+	return rows
+}
+
+// configDefaults: the constant fields of the first composite literal of NewConfiguration (nested literals flattened with a dot)
+func configDefaults(fn *ast.FuncDecl, info *types.Info) [][2]string {
+	var rows [][2]string
+	var walk func(prefix string, cl *ast.CompositeLit)
+	walk = func(prefix string, cl *ast.CompositeLit) {
+		for _, e := range cl.Elts {
+			kv, ok := e.(*ast.KeyValueExpr)
+			if !ok {
+				continue
+			}
+			name := prefix + types.ExprString(kv.Key)
+			v := kv.Value
+			if u, ok := v.(*ast.UnaryExpr); ok {
+				v = u.X
+			}
+			if inner, ok := v.(*ast.CompositeLit); ok {
+				walk(name+".", inner)
+				continue
+			}
+			if tv, ok := info.Types[kv.Value]; ok && tv.Value != nil {
+				if tv.Value.Kind() == constant.String {
+					rows = append(rows, [2]string{name, constant.StringVal(tv.Value)})
+				} else {
+					rows = append(rows, [2]string{name, tv.Value.ExactString()})
+				}
+			} else {
+				rows = append(rows, [2]string{name, "?" + types.ExprString(kv.Value)})
+			}
+		}
+	}
+	done := false
+	ast.Inspect(fn.Body, func(n ast.Node) bool {
+		if done {
+			return false
+		}
+		if cl, ok := n.(*ast.CompositeLit); ok {
+			walk("", cl)
+			done = true
+			return false
+		}
+		return true
+	})
+	sort.Slice(rows, func(i, j int) bool { return rows[i][0] < rows[j][0] })
+	return rows
 }
